@@ -1,6 +1,7 @@
 package main
 
 import (
+	"path/filepath"
 	"fmt"
 	"go/ast"
 	"go/types"
@@ -104,7 +105,7 @@ func accessibleFields(pkg *types.Package, s *types.Struct) int {
 }
 
 // c05Cover checks that [entries] cover the fields of struct s (paths prefixed by prefix) exactly once.
-func c05Cover(pkg *types.Package, s *types.Struct, prefix string, entries []entry, out *[][2]string, ctx string) {
+func c05Cover(pkg *types.Package, s *types.Struct, anon bool, prefix string, entries []entry, out *[][2]string, ctx string) {
 	for i := 0; i < s.NumFields(); i++ {
 		f := s.Field(i)
 		path := prefix + "." + f.Name()
@@ -121,9 +122,11 @@ func c05Cover(pkg *types.Package, s *types.Struct, prefix string, entries []entr
 		}
 		if !fieldVisible(pkg, f) {
 			if len(exact)+len(under) > 0 {
-				sig := "invisible-field-mentioned"
-				if _, anon := s.Underlying().(*types.Struct); anon && !strings.Contains(prefix, "@named") {
-					// anonymous struct nested in an imported type
+				// narrow: whether the struct holding the invisible member is an anonymous struct type
+				// (nested in an imported type) or a named one
+				sig := "invisible-field-mentioned:member-of-a-named-struct-type"
+				if anon {
+					sig = "invisible-field-mentioned:member-of-an-anonymous-struct-type"
 				}
 				*out = append(*out, [2]string{sig, fmt.Sprintf("%s: %s is not visible from the generated package but appears in %q", ctx, path, append(exact, under...)[0].Raw)})
 			}
@@ -145,7 +148,8 @@ func c05Cover(pkg *types.Package, s *types.Struct, prefix string, entries []entr
 			if !ok {
 				*out = append(*out, [2]string{"member-entries-on-non-struct", fmt.Sprintf("%s: %s", ctx, path)})
 			} else {
-				c05Cover(pkg, st, path, under, out, ctx)
+				_, isAnon := f.Type().(*types.Struct)
+				c05Cover(pkg, st, isAnon, path, under, out, ctx)
 			}
 		}
 	}
@@ -181,7 +185,7 @@ func c05Oracle(cr *caseRun) [][2]string {
 				}
 				continue
 			}
-			c05Cover(pkg, st, root, gf.Entries, &vs, m.Name)
+			c05Cover(pkg, st, false, root, gf.Entries, &vs, m.Name)
 			for _, e := range gf.Entries {
 				if e.Kind == "nomatch" {
 					nomatch++
@@ -199,6 +203,8 @@ func c05Oracle(cr *caseRun) [][2]string {
 			warnings++
 			if !rePosLine.MatchString(l) {
 				vs = append(vs, [2]string{"warning-without-position", l})
+			} else if want := filepath.Join(cr.Dir, "pk", "setup.go") + ":"; !strings.HasPrefix(l, want) {
+				vs = append(vs, [2]string{"warning-position-names-another-file", "want prefix " + want + "\n got " + l})
 			}
 		}
 	}
